@@ -294,6 +294,29 @@ def classify_callback(fx, method_q):
     return cls
 
 
+def quiet_swap(f, n):
+    """n is one half of `orig = X->GetData(); X->SetData(tmp, NULL, …); …; X->SetData(orig, NULL, …)`: both calls pass no notifier, the same receiver, the second restores the local that was
+    saved from the receiver's GetData() before the first, and the first is followed by the second on every path (no notification, no lasting change)"""
+    def quiet(c):
+        a = c.args()
+        return len(a) >= 2 and (A.strip_casts(a[1])['k'] in ('GNUNullExpr', 'CXXNullPtrLiteralExpr') or A.strip_casts(a[1]).get('v') == 0)
+    if not quiet(n) or n.receiver() is None:
+        return False
+    rk = A.render_key(A.strip_casts(n.receiver()))
+    sib = [c for c in f.walk() if c.is_call() and (c.get('q') or '').endswith('DataNode::SetData') and c.receiver() is not None and A.render_key(A.strip_casts(c.receiver())) == rk and quiet(c)]
+    if len(sib) != 2:
+        return False
+    first, second = sorted(sib, key=lambda c: c['i'])
+    a0 = A.strip_casts(second.args()[0])
+    if a0['k'] != 'DeclRefExpr' or a0.get('d') is None:
+        return False
+    saved = [v for v in f.walk() if v['k'] == 'VarDecl' and v.get('d') == a0['d'] and v['ch'] and any(x.is_call() and (x.get('q') or '').endswith('DataNode::GetData') and x.receiver() is not None
+                                                                                                and A.render_key(A.strip_casts(x.receiver())) == rk for x in v['ch'][0].walk())]
+    if not saved or not P.must_precede(f, saved, first):
+        return False
+    return P.must_follow(f, first, [second])[0]
+
+
 def run(res, tier):
     fx = common.load_units(res, ['reflector/StorageReflectSession.cpp', 'reflector/DataNode.cpp', 'reflector/ReflectServer.cpp', 'reflector/AbstractReflectSession.cpp', 'reflector/DumbReflectSession.cpp'],
                            fn_regex=r'^muscle::(StorageReflectSession|DataNode|ReflectServer|AbstractReflectSession|DumbReflectSession|ImmutableHashtablePool)')
@@ -353,7 +376,6 @@ def run(res, tier):
     FROZEN = {
         ('AttachedToServer', 'PutChild'): 'creates the session\'s own host node / session node at attach time, named by its own host name and session id',
         ('Cleanup', 'RemoveChild'): 'removes the session\'s own session node (and the host node once empty) at teardown — TEARDOWN-PAIR checks the key',
-        ('CheckChildForTraversal', 'SetData'): 'quiet temporary swap of a node\'s payload around one callback invocation, restored immediately (no notification, no lasting change)',
     }
     prov = Prov(fx, trav)
     # functions a client command can reach: same-class calls from the dispatcher, plus the callbacks of the traversals they start
@@ -392,6 +414,10 @@ def run(res, tier):
             where = f.where(n)
             if (short, m) in FROZEN:
                 res.ob('MUT-PROVENANCE', where, '%s in %s: frozen exception' % (m, short), True, how=FROZEN[(short, m)], function=f.q, nontrivial=False)
+                continue
+            if m == 'SetData' and quiet_swap(f, n):
+                res.ob('MUT-PROVENANCE', where, '%s in %s: quiet temporary swap of a payload, restored on every path (recognised by its shape)' % (m, short), True, function=f.q, nontrivial=False,
+                       how='SetData(x, NULL, …) … SetData(<local saved from GetData() of the same node>, NULL, …)')
                 continue
             p = prov.of_expr(f, r) if r is not None else 'UNKNOWN'
             res.ob('MUT-PROVENANCE', where, 'receiver `%s` of %s in %s lies in the session\'s own subtree' % (r.text(40) if r is not None else '?', m, short), p in OKP,
